@@ -213,6 +213,8 @@ class Assembly:
             emit_one(tsig, tspec, True)
         rec = {k: item[k] for k in ('file', 'impl', 'name', 'line_start', 'line_end', 'sha256')}
         rec['label'] = label
+        if 'rename' in a:
+            rec['rename'] = a['rename']
         rec['loops'] = nl
         rec['closures'] = nc
         self.functions.append(rec)
